@@ -374,16 +374,15 @@ Fixpoint last_index_of (h : heap) (xs : list value) (v : value) (pos : Z) (best 
               end
   end.
 
-Definition lib (f : str) (args : list value) (h : heap) : libres * heap :=
-  (* ---------------------------------------------------------------- arrays *)
-  if str_eqb f (U "arrayCopy") then
-    validated f args h (fun va _ => match va with
+Definition k_arrayCopy (h : heap) (va : list varg) : libres * heap :=
+  match va with
       | [AV (VArr l)] => match hget h l with
           | Some (CArr xs) => let (h', l') := halloc h (CArr xs) in (LOk (VArr l'), h')
           | _ => stuck h end
-      | _ => stuck h end)
-  else if str_eqb f (U "arrayDelete") then
-    validated f args h (fun va _ => match va with
+      | _ => stuck h end.
+
+Definition k_arrayDelete (h : heap) (va : list varg) : libres * heap :=
+  match va with
       | [AV (VArr l); AV vi] => match hget h l with
           | Some (CArr xs) =>
               match index_guard vi (length xs) with
@@ -394,15 +393,17 @@ Definition lib (f : str) (args : list value) (h : heap) : libres * heap :=
                                  | None => (LRaise, h) end
               end
           | _ => stuck h end
-      | _ => stuck h end)
-  else if str_eqb f (U "arrayExtend") then
-    validated f args h (fun va _ => match va with
+      | _ => stuck h end.
+
+Definition k_arrayExtend (h : heap) (va : list varg) : libres * heap :=
+  match va with
       | [AV (VArr l); AV (VArr l2)] => match hget h l, hget h l2 with
           | Some (CArr xs), Some (CArr ys) => (LOk (VArr l), hset h l (CArr (xs ++ ys)))
           | _, _ => stuck h end
-      | _ => stuck h end)
-  else if str_eqb f (U "arrayGet") then
-    validated f args h (fun va _ => match va with
+      | _ => stuck h end.
+
+Definition k_arrayGet (h : heap) (va : list varg) : libres * heap :=
+  match va with
       | [AV (VArr l); AV vi] => match hget h l with
           | Some (CArr xs) =>
               match index_guard vi (length xs) with
@@ -413,9 +414,10 @@ Definition lib (f : str) (args : list value) (h : heap) : libres * heap :=
                                  | None => (LRaise, h) end
               end
           | _ => stuck h end
-      | _ => stuck h end)
-  else if str_eqb f (U "arrayIndexOf") then
-    validated f args h (fun va _ => match va with
+      | _ => stuck h end.
+
+Definition k_arrayIndexOf (h : heap) (va : list varg) : libres * heap :=
+  match va with
       | [AV (VArr l); AV v; AV vi] => match hget h l with
           | Some (CArr xs) =>
               match index_guard vi (length xs) with
@@ -434,9 +436,10 @@ Definition lib (f : str) (args : list value) (h : heap) : libres * heap :=
                   end
               end
           | _ => stuck h end
-      | _ => stuck h end)
-  else if str_eqb f (U "arrayLastIndexOf") then
-    validated f args h (fun va _ => match va with
+      | _ => stuck h end.
+
+Definition k_arrayLastIndexOf (h : heap) (va : list varg) : libres * heap :=
+  match va with
       | [AV (VArr l); AV v; AV vi0] => match hget h l with
           | Some (CArr xs) =>
               let vi := match vi0 with VNull => vint (len xs - 1) | _ => vi0 end in
@@ -456,25 +459,29 @@ Definition lib (f : str) (args : list value) (h : heap) : libres * heap :=
                   end
               end
           | _ => stuck h end
-      | _ => stuck h end)
-  else if str_eqb f (U "arrayLength") then
-    validated f args h (fun va _ => match va with
+      | _ => stuck h end.
+
+Definition k_arrayLength (h : heap) (va : list varg) : libres * heap :=
+  match va with
       | [AV (VArr l)] => match hget h l with
           | Some (CArr xs) => (LOk (vint (len xs)), h)
           | _ => stuck h end
-      | _ => stuck h end)
-  else if str_eqb f (U "arrayNew") then
-    let (h', l') := halloc h (CArr args) in (LOk (VArr l'), h')
-  else if str_eqb f (U "arrayNewSize") then
-    validated f args h (fun va _ => match va with
+      | _ => stuck h end.
+
+Definition raw_arrayNew (h : heap) (args : list value) : libres * heap :=
+  let (h', l') := halloc h (CArr args) in (LOk (VArr l'), h').
+
+Definition k_arrayNewSize (h : heap) (va : list varg) : libres * heap :=
+  match va with
       | [AV vs; AV v] => match as_num vs with
           | Some n => match py_int n with
                       | Some z => let (h', l') := halloc h (CArr (repeat v (Z.to_nat z))) in (LOk (VArr l'), h')
                       | None => (LRaise, h) end
           | None => stuck h end
-      | _ => stuck h end)
-  else if str_eqb f (U "arrayPop") then
-    validated f args h (fun va _ => match va with
+      | _ => stuck h end.
+
+Definition k_arrayPop (h : heap) (va : list varg) : libres * heap :=
+  match va with
       | [AV (VArr l)] => match hget h l with
           | Some (CArr xs) =>
               match rev xs with
@@ -482,15 +489,17 @@ Definition lib (f : str) (args : list value) (h : heap) : libres * heap :=
               | last :: _ => (LOk last, hset h l (CArr (removelast xs)))
               end
           | _ => stuck h end
-      | _ => stuck h end)
-  else if str_eqb f (U "arrayPush") then
-    validated f args h (fun va _ => match va with
+      | _ => stuck h end.
+
+Definition k_arrayPush (h : heap) (va : list varg) : libres * heap :=
+  match va with
       | [AV (VArr l); AL vs] => match hget h l with
           | Some (CArr xs) => (LOk (VArr l), hset h l (CArr (xs ++ vs)))
           | _ => stuck h end
-      | _ => stuck h end)
-  else if str_eqb f (U "arraySet") then
-    validated f args h (fun va _ => match va with
+      | _ => stuck h end.
+
+Definition k_arraySet (h : heap) (va : list varg) : libres * heap :=
+  match va with
       | [AV (VArr l); AV vi; AV v] => match hget h l with
           | Some (CArr xs) =>
               match index_guard vi (length xs) with
@@ -501,9 +510,10 @@ Definition lib (f : str) (args : list value) (h : heap) : libres * heap :=
                                  | None => (LRaise, h) end
               end
           | _ => stuck h end
-      | _ => stuck h end)
-  else if str_eqb f (U "arrayShift") then
-    validated f args h (fun va _ => match va with
+      | _ => stuck h end.
+
+Definition k_arrayShift (h : heap) (va : list varg) : libres * heap :=
+  match va with
       | [AV (VArr l)] => match hget h l with
           | Some (CArr xs) =>
               match xs with
@@ -511,9 +521,10 @@ Definition lib (f : str) (args : list value) (h : heap) : libres * heap :=
               | first :: t => (LOk first, hset h l (CArr t))
               end
           | _ => stuck h end
-      | _ => stuck h end)
-  else if str_eqb f (U "arraySlice") then
-    validated f args h (fun va _ => match va with
+      | _ => stuck h end.
+
+Definition k_arraySlice (h : heap) (va : list varg) : libres * heap :=
+  match va with
       | [AV (VArr l); AV vs; AV ve0] => match hget h l with
           | Some (CArr xs) =>
               let ve := match ve0 with VNull => vint (len xs) | _ => ve0 end in
@@ -526,46 +537,52 @@ Definition lib (f : str) (args : list value) (h : heap) : libres * heap :=
                        | _, _ => (LRaise, h) end
               | _, _ => stuck h end
           | _ => stuck h end
-      | _ => stuck h end)
-  (* ---------------------------------------------------------------- objects *)
-  else if str_eqb f (U "objectAssign") then
-    validated f args h (fun va _ => match va with
+      | _ => stuck h end.
+
+Definition k_objectAssign (h : heap) (va : list varg) : libres * heap :=
+  match va with
       | [AV (VObj l); AV (VObj l2)] => match hget h l, hget h l2 with
           | Some (CObj kv), Some (CObj kv2) => (LOk (VObj l), hset h l (CObj (dict_update kv kv2)))
           | _, _ => stuck h end
-      | _ => stuck h end)
-  else if str_eqb f (U "objectCopy") then
-    validated f args h (fun va _ => match va with
+      | _ => stuck h end.
+
+Definition k_objectCopy (h : heap) (va : list varg) : libres * heap :=
+  match va with
       | [AV (VObj l)] => match hget h l with
           | Some (CObj kv) => let (h', l') := halloc h (CObj kv) in (LOk (VObj l'), h')
           | _ => stuck h end
-      | _ => stuck h end)
-  else if str_eqb f (U "objectDelete") then
-    validated f args h (fun va _ => match va with
+      | _ => stuck h end.
+
+Definition k_objectDelete (h : heap) (va : list varg) : libres * heap :=
+  match va with
       | [AV (VObj l); AV (VStr k)] => match hget h l with
           | Some (CObj kv) => (LOk VNull, hset h l (CObj (dict_del kv k)))
           | _ => stuck h end
-      | _ => stuck h end)
-  else if str_eqb f (U "objectGet") then
-    validated f args h (fun va _ => match va with
+      | _ => stuck h end.
+
+Definition k_objectGet (h : heap) (va : list varg) : libres * heap :=
+  match va with
       | [AV (VObj l); AV (VStr k); AV d] => match hget h l with
           | Some (CObj kv) => (LOk (match assoc k kv with Some v => v | None => d end), h)
           | _ => stuck h end
-      | _ => stuck h end)
-  else if str_eqb f (U "objectHas") then
-    validated f args h (fun va _ => match va with
+      | _ => stuck h end.
+
+Definition k_objectHas (h : heap) (va : list varg) : libres * heap :=
+  match va with
       | [AV (VObj l); AV (VStr k)] => match hget h l with
           | Some (CObj kv) => (LOk (VBool (match assoc k kv with Some _ => true | None => false end)), h)
           | _ => stuck h end
-      | _ => stuck h end)
-  else if str_eqb f (U "objectKeys") then
-    validated f args h (fun va _ => match va with
+      | _ => stuck h end.
+
+Definition k_objectKeys (h : heap) (va : list varg) : libres * heap :=
+  match va with
       | [AV (VObj l)] => match hget h l with
           | Some (CObj kv) => let (h', l') := halloc h (CArr (map (fun p => VStr (fst p)) kv)) in (LOk (VArr l'), h')
           | _ => stuck h end
-      | _ => stuck h end)
-  else if str_eqb f (U "objectNew") then
-    (let fix go (a : list value) (acc : list (str * value)) (fuel : nat) : option (list (str * value)) :=
+      | _ => stuck h end.
+
+Definition raw_objectNew (h : heap) (args : list value) : libres * heap :=
+  (let fix go (a : list value) (acc : list (str * value)) (fuel : nat) : option (list (str * value)) :=
        match fuel with O => None | S fu =>
        match a with
        | [] => Some acc
@@ -576,16 +593,17 @@ Definition lib (f : str) (args : list value) (h : heap) : libres * heap :=
      match go args [] (S (length args)) with
      | Some kv => let (h', l') := halloc h (CObj kv) in (LOk (VObj l'), h')
      | None => (LArgsErr VNull, h)
-     end)
-  else if str_eqb f (U "objectSet") then
-    validated f args h (fun va _ => match va with
+     end).
+
+Definition k_objectSet (h : heap) (va : list varg) : libres * heap :=
+  match va with
       | [AV (VObj l); AV (VStr k); AV v] => match hget h l with
           | Some (CObj kv) => (LOk v, hset h l (CObj (dict_set kv k v)))
           | _ => stuck h end
-      | _ => stuck h end)
-  (* ---------------------------------------------------------------- strings *)
-  else if str_eqb f (U "stringCharCodeAt") then
-    validated f args h (fun va _ => match va with
+      | _ => stuck h end.
+
+Definition k_stringCharCodeAt (h : heap) (va : list varg) : libres * heap :=
+  match va with
       | [AV (VStr s); AV vi] =>
           match index_guard vi (length s) with
           | None => stuck h
@@ -594,17 +612,20 @@ Definition lib (f : str) (args : list value) (h : heap) : libres * heap :=
                              | Some i => match nth_error s i with Some c => (LOk (vint (Z.of_N c)), h) | None => stuck h end
                              | None => (LRaise, h) end
           end
-      | _ => stuck h end)
-  else if str_eqb f (U "stringEndsWith") then
-    validated f args h (fun va _ => match va with
+      | _ => stuck h end.
+
+Definition k_stringEndsWith (h : heap) (va : list varg) : libres * heap :=
+  match va with
       | [AV (VStr s); AV (VStr p)] => (LOk (VBool (str_suffix p s)), h)
-      | _ => stuck h end)
-  else if str_eqb f (U "stringStartsWith") then
-    validated f args h (fun va _ => match va with
+      | _ => stuck h end.
+
+Definition k_stringStartsWith (h : heap) (va : list varg) : libres * heap :=
+  match va with
       | [AV (VStr s); AV (VStr p)] => (LOk (VBool (str_prefix p s)), h)
-      | _ => stuck h end)
-  else if str_eqb f (U "stringFromCharCode") then
-    (* loop 1: value_type(code) != 'number' or int(code) != code or code < 0 -> ValueArgsError *)
+      | _ => stuck h end.
+
+Definition raw_stringFromCharCode (h : heap) (args : list value) : libres * heap :=
+  (* loop 1: value_type(code) != 'number' or int(code) != code or code < 0 -> ValueArgsError *)
     (let fix check (a : list value) : option (option (list Z)) :=     (* None = int() raised; Some None = ValueArgsError *)
        match a with
        | [] => Some (Some [])
@@ -621,18 +642,20 @@ Definition lib (f : str) (args : list value) (h : heap) : libres * heap :=
      | Some None => (LArgsErr VNull, h)
      | Some (Some zs) =>
          if forallb (fun z => z <? 1114112) zs then (LOk (VStr (map Z.to_N zs)), h) else (LRaise, h)   (* chr() range *)
-     end)
-  else if str_eqb f (U "stringIndexOf") then
-    validated f args h (fun va _ => match va with
+     end).
+
+Definition k_stringIndexOf (h : heap) (va : list varg) : libres * heap :=
+  match va with
       | [AV (VStr s); AV (VStr sub); AV vi] =>
           match index_guard vi (length s) with
           | None => stuck h
           | Some None => (LArgsErr (vint (-1)), h)
           | Some (Some z) => (LOk (vint (py_find sub s z)), h)
           end
-      | _ => stuck h end)
-  else if str_eqb f (U "stringLastIndexOf") then
-    validated f args h (fun va _ => match va with
+      | _ => stuck h end.
+
+Definition k_stringLastIndexOf (h : heap) (va : list varg) : libres * heap :=
+  match va with
       | [AV (VStr s); AV (VStr sub); AV vi0] =>
           let vi := match vi0 with VNull => vint (len s - 1) | _ => vi0 end in
           match index_guard vi (length s) with
@@ -640,25 +663,29 @@ Definition lib (f : str) (args : list value) (h : heap) : libres * heap :=
           | Some None => (LArgsErr (vint (-1)), h)
           | Some (Some z) => (LOk (vint (py_rfind0 sub s (z + len sub))), h)
           end
-      | _ => stuck h end)
-  else if str_eqb f (U "stringLength") then
-    validated f args h (fun va _ => match va with
+      | _ => stuck h end.
+
+Definition k_stringLength (h : heap) (va : list varg) : libres * heap :=
+  match va with
       | [AV (VStr s)] => (LOk (vint (len s)), h)
-      | _ => stuck h end)
-  else if str_eqb f (U "stringRepeat") then
-    validated f args h (fun va _ => match va with
+      | _ => stuck h end.
+
+Definition k_stringRepeat (h : heap) (va : list varg) : libres * heap :=
+  match va with
       | [AV (VStr s); AV vc] => match as_num vc with
           | Some n => match py_int n with
                       | Some z => (LOk (VStr (repeat_str s (Z.to_nat z))), h)
                       | None => (LRaise, h) end
           | None => stuck h end
-      | _ => stuck h end)
-  else if str_eqb f (U "stringReplace") then
-    validated f args h (fun va _ => match va with
+      | _ => stuck h end.
+
+Definition k_stringReplace (h : heap) (va : list varg) : libres * heap :=
+  match va with
       | [AV (VStr s); AV (VStr old); AV (VStr new)] => (LOk (VStr (py_replace s old new)), h)
-      | _ => stuck h end)
-  else if str_eqb f (U "stringSlice") then
-    validated f args h (fun va _ => match va with
+      | _ => stuck h end.
+
+Definition k_stringSlice (h : heap) (va : list varg) : libres * heap :=
+  match va with
       | [AV (VStr s); AV vs; AV ve0] =>
           let ve := match ve0 with VNull => vint (len s) | _ => ve0 end in
           match as_num vs, as_num ve with
@@ -669,33 +696,87 @@ Definition lib (f : str) (args : list value) (h : heap) : libres * heap :=
                    | Some zs, Some ze => (LOk (VStr (py_slice s zs ze)), h)
                    | _, _ => (LRaise, h) end
           | _, _ => stuck h end
-      | _ => stuck h end)
-  else if str_eqb f (U "stringSplit") then
-    validated f args h (fun va _ => match va with
+      | _ => stuck h end.
+
+Definition k_stringSplit (h : heap) (va : list varg) : libres * heap :=
+  match va with
       | [AV (VStr s); AV (VStr sep)] =>
           match sep with
           | [] => (LRaise, h)                                            (* ValueError: empty separator *)
           | _ => let (h', l') := halloc h (CArr (map VStr (py_split s sep))) in (LOk (VArr l'), h')
           end
-      | _ => stuck h end)
-  else if str_eqb f (U "stringTrim") then
-    validated f args h (fun va _ => match va with
+      | _ => stuck h end.
+
+Definition k_stringTrim (h : heap) (va : list varg) : libres * heap :=
+  match va with
       | [AV (VStr s)] => (LOk (VStr (strip s)), h)
-      | _ => stuck h end)
-  (* ---------------------------------------------------------------- regexEscape, URL encoding *)
-  else if str_eqb f (U "regexEscape") then
-    validated f args h (fun va _ => match va with
+      | _ => stuck h end.
+
+Definition k_regexEscape (h : heap) (va : list varg) : libres * heap :=
+  match va with
       | [AV (VStr s)] => (LOk (VStr (regex_escape s)), h)
-      | _ => stuck h end)
-  else if str_eqb f (U "urlEncode") || str_eqb f (U "urlEncodeComponent") then
-    validated f args h (fun va _ => match va with
+      | _ => stuck h end.
+
+Definition k_urlEncodeGen (f : str) (h : heap) (va : list varg) : libres * heap :=
+  match va with
       | [AV (VStr s)] => match url_safe_of f with
           | Some safe => match url_quote safe s with Some r => (LOk (VStr r), h) | None => (LRaise, h) end
           | None => stuck h end
-      | _ => stuck h end)
-  else (LOutOfModel, h).
+      | _ => stuck h end.
 
-Definition modelled_functions : list str :=
+(* functions that validate their arguments against the generated table, and the three that inspect them by hand *)
+Definition kfun := heap -> list varg -> libres * heap.
+Definition rawfun := heap -> list value -> libres * heap.
+Definition lib_table : list (str * kfun) :=
+  [(U "arrayCopy", k_arrayCopy);
+   (U "arrayDelete", k_arrayDelete);
+   (U "arrayExtend", k_arrayExtend);
+   (U "arrayGet", k_arrayGet);
+   (U "arrayIndexOf", k_arrayIndexOf);
+   (U "arrayLastIndexOf", k_arrayLastIndexOf);
+   (U "arrayLength", k_arrayLength);
+   (U "arrayNewSize", k_arrayNewSize);
+   (U "arrayPop", k_arrayPop);
+   (U "arrayPush", k_arrayPush);
+   (U "arraySet", k_arraySet);
+   (U "arrayShift", k_arrayShift);
+   (U "arraySlice", k_arraySlice);
+   (U "objectAssign", k_objectAssign);
+   (U "objectCopy", k_objectCopy);
+   (U "objectDelete", k_objectDelete);
+   (U "objectGet", k_objectGet);
+   (U "objectHas", k_objectHas);
+   (U "objectKeys", k_objectKeys);
+   (U "objectSet", k_objectSet);
+   (U "stringCharCodeAt", k_stringCharCodeAt);
+   (U "stringEndsWith", k_stringEndsWith);
+   (U "stringStartsWith", k_stringStartsWith);
+   (U "stringIndexOf", k_stringIndexOf);
+   (U "stringLastIndexOf", k_stringLastIndexOf);
+   (U "stringLength", k_stringLength);
+   (U "stringRepeat", k_stringRepeat);
+   (U "stringReplace", k_stringReplace);
+   (U "stringSlice", k_stringSlice);
+   (U "stringSplit", k_stringSplit);
+   (U "stringTrim", k_stringTrim);
+   (U "regexEscape", k_regexEscape);
+   (U "urlEncode", k_urlEncodeGen (U "urlEncode"));
+   (U "urlEncodeComponent", k_urlEncodeGen (U "urlEncodeComponent"))].
+Definition raw_table : list (str * rawfun) :=
+  [(U "arrayNew", raw_arrayNew); (U "objectNew", raw_objectNew); (U "stringFromCharCode", raw_stringFromCharCode)].
+
+Definition lib (f : str) (args : list value) (h : heap) : libres * heap :=
+  match assoc f raw_table with
+  | Some g => g h args
+  | None =>
+    match assoc f lib_table with
+    | Some k => validated f args h (fun va _ => k h va)
+    | None => (LOutOfModel, h)
+    end
+  end.
+
+Definition modelled_functions : list str := map fst raw_table ++ map fst lib_table.
+Definition modelled_functions_listed : list str :=
   [U "arrayCopy"; U "arrayDelete"; U "arrayExtend"; U "arrayGet"; U "arrayIndexOf"; U "arrayLastIndexOf"; U "arrayLength";
    U "arrayNew"; U "arrayNewSize"; U "arrayPop"; U "arrayPush"; U "arraySet"; U "arrayShift"; U "arraySlice";
    U "objectAssign"; U "objectCopy"; U "objectDelete"; U "objectGet"; U "objectHas"; U "objectKeys"; U "objectNew"; U "objectSet";
